@@ -59,7 +59,7 @@ func init() {
 
 // obj is the description of one object version: everything the predicates and handlers read.
 type obj struct {
-	ID    int    `json:"id"`    // identity of the Go object (pointer)
+	ID    int    `json:"id"` // identity of the Go object (pointer)
 	NS    string `json:"ns"`
 	Name  string `json:"name"`
 	Svc   string `json:"svc,omitempty"` // label kubernetes.io/service-name
@@ -219,11 +219,11 @@ func (b *builder) build(kind string, o *obj) client.Object {
 // ---------------------------------------------------------------- running a history on the real watchers
 
 type batchObs struct {
-	GCur, GNew, TCur, TNew int              `json:"-"` // data tokens, -1 = nil
-	Data                   [4]int           `json:"data_cur_new_tcpcur_tcpnew"`
-	Lists                  map[string][]int `json:"lists"`
-	Full                   bool             `json:"full"`
-	Objects                []string         `json:"objects"`
+	GCur, GNew, TCur, TNew int                 `json:"-"` // data tokens, -1 = nil
+	Data                   [4]int              `json:"data_cur_new_tcpcur_tcpnew"`
+	Lists                  map[string][]int    `json:"lists"`
+	Full                   bool                `json:"full"`
+	Objects                []string            `json:"objects"`
 	Links                  map[string][]string `json:"links"`
 }
 
